@@ -110,39 +110,54 @@ def run_group(verif, repo, group, pid, tier, scratch):
         res["status"] = "undecided"
         res["reason"] = f"harness injection failed: {e}"
         return res
-    jobs = int(os.environ.get("VERIF_KANI_JOBS", "4"))
-    cmd = ["cargo", "kani", "-Z", "function-contracts", "-Z", "stubbing", "-Z", "concrete-playback",
-           "--concrete-playback=print", "-Z", "unstable-options", "-j", str(jobs), "--output-format", "terse"]
-    cmd += gd.get("extra_args", [])
-    for h in hs:
-        cmd += ["--harness", h["name"]]
+    jobs = int(os.environ.get("VERIF_KANI_JOBS", "6"))
+    base = ["cargo", "kani", "-Z", "function-contracts", "-Z", "stubbing", "-Z", "concrete-playback",
+            "--concrete-playback=print", "--output-format", "terse"] + gd.get("extra_args", [])
     env = dict(os.environ, CARGO_NET_OFFLINE="true", CARGO_TARGET_DIR=os.path.join(scratch, "target"))
-    res["cmds"].append(" ".join(cmd) + f"   (cwd: scratch copy of {gd.get('kind', 'agdb')})")
+    res["cmds"].append(" ".join(base) + " --harness <each of: " + ",".join(h["name"] for h in hs) +
+                       f">   (cwd: scratch copy of {gd.get('kind', 'agdb')} with harnesses appended)")
     t0 = time.time()
-    timeout = int(gd.get("timeout_s", 1500)) * (3 if tier == "thorough" else 1)
+    timeout = int(gd.get("timeout_s", 900)) * (3 if tier == "thorough" else 1)
+    # 1. compile once (all harnesses), so that the per-harness processes below only run CBMC
     try:
-        p = subprocess.run(cmd, cwd=crate_dir, env=env, capture_output=True, text=True, timeout=timeout)
-        out = p.stdout + "\n" + p.stderr
-    except subprocess.TimeoutExpired as e:
-        out = ((e.stdout or b"").decode() if isinstance(e.stdout, bytes) else (e.stdout or "")) + "\nTIMEOUT"
+        pc = subprocess.run(base + ["--only-codegen"], cwd=crate_dir, env=env, capture_output=True, text=True, timeout=1800)
+    except subprocess.TimeoutExpired:
         res["status"] = "undecided"
-        res["reason"] = f"kani timeout after {timeout}s"
+        res["reason"] = "kani compile timeout"
+        return res
+    cout = pc.stdout + "\n" + pc.stderr
+    with open(os.path.join(scratch, "kani-compile.log"), "w") as f:
+        f.write(cout)
+    if pc.returncode != 0:
+        res["status"] = "undecided"
+        mt = re.search(r"error(\[E\d+\])?:[^\n]*(\n[^\n]*){0,6}", cout)
+        res["reason"] = "harness crate does not compile on this tree: " + (mt.group(0) if mt else cout[-500:])
+        return res
+
+    def one(h):
+        th = int(h.get("timeout_s", timeout))
+        try:
+            p = subprocess.run(base + ["--harness", h["name"]], cwd=crate_dir, env=env, capture_output=True,
+                               text=True, timeout=th)
+            out = p.stdout + "\n" + p.stderr
+        except subprocess.TimeoutExpired:
+            subprocess.run(["pkill", "-f", "--", "--function .*" + h["name"]], capture_output=True)
+            return h, None, f"timeout after {th}s"
+        with open(os.path.join(scratch, f"kani-{h['name']}.log"), "w") as f:
+            f.write(out)
+        return h, parse_kani(out).get(h["name"]), out[-600:]
+
+    import concurrent.futures as cf
+    with cf.ThreadPoolExecutor(max_workers=jobs) as ex:
+        outs = list(ex.map(one, hs))
     res["wall_s"] = time.time() - t0
-    with open(os.path.join(scratch, "kani.log"), "w") as f:
-        f.write(out)
-    parsed = parse_kani(out)
-    if "error: could not compile" in out or "error[E" in out:
-        res["status"] = "undecided"
-        mt = re.search(r"error(\[E\d+\])?:[^\n]*\n[^\n]*", out)
-        res["reason"] = "harness crate does not compile: " + (mt.group(0) if mt else "")
-    for h in hs:
-        pr = parsed.get(h["name"])
+    for h, pr, tail in outs:
         row = {"name": h["name"], "label": h["label"], "kind": h.get("kind", "proof"), "result": "MISSING"}
         if pr:
             row.update(pr)
-        elif res["status"] == "ok":
-            res["status"] = "undecided"
-            res["reason"] = f"no result for harness {h['name']}"
+        else:
+            row["result"] = "UNDETERMINED"
+            row["log_tail"] = tail
         if row["result"] == "FAILED":
             # only assertion/panic/overflow failures are semantic; unwinding / unsupported are tool limits
             fc = row.get("failed_checks", [])
